@@ -79,6 +79,48 @@ func verif_harness_C15_static_concurrent() {
 	verif_assert(u0+u1 == int64(T) && u0-u1 <= 1 && u1-u0 <= 1, "C15.static.even-rotation-under-concurrency")
 }
 
+// C15 (2b) — the same in mid-stream: the root first draws 0..3 targets (so the
+// counter is anywhere before, at or after its wrap-around point), two
+// goroutines draw concurrently, and after both finished the root draws once
+// more. Strict rotation over all p+3 draws: every interleaving hands out
+// exactly the targets (0..p+2) mod 2, so the per-target counts are determined.
+//
+//verif:harness engine=gobmc unwind=16 replay=none autoshared=1 queries=cut,bad,race,deadlock bmctimeout=600
+func verif_harness_C15_static_midstream() {
+	tr := NewStaticTargeter(Target{Method: "GET", URL: "u0"}, Target{Method: "GET", URL: "u1"})
+	count := func(t *Target) {
+		if t.URL == "u0" {
+			verif_ghost_add("used0", 1)
+		} else {
+			verif_ghost_add("used1", 1)
+		}
+	}
+	p := verif_choose("earlier_draws", 4)
+	for j := 0; j < p; j++ {
+		var t Target
+		verif_assert(tr(&t) == nil, "C15.static.no-error")
+		count(&t)
+	}
+	done := make(chan struct{})
+	verif_chan_name(done, "done")
+	for w := 0; w < 2; w++ {
+		go func() {
+			var t Target
+			verif_assert(tr(&t) == nil, "C15.static.no-error")
+			count(&t)
+			done <- struct{}{}
+		}()
+	}
+	<-done
+	<-done
+	var t Target
+	verif_assert(tr(&t) == nil, "C15.static.no-error")
+	count(&t)
+	n := int64(p + 3)
+	u0, u1 := verif_ghost_add("used0", 0), verif_ghost_add("used1", 0)
+	verif_assert(u0 == (n+1)/2 && u1 == n/2, "C15.static.strict-rotation-across-the-wrap-around")
+}
+
 // C15 (3) — T goroutines draw from one JSON stream targeter concurrently. The
 // buffered reader inside the targeter is replaced by a cursor model: ReadBytes
 // loads a shared position, hands out that line and stores position+1 — plain
@@ -147,6 +189,50 @@ func verif_harness_C15_http_targeter_race() {
 			return false
 		}
 		pos = p + 1
+		cur = lines[p]
+		return true
+	})
+	verif_stub("(*bufio.Scanner).Text", func(sc *bufio.Scanner) string { return cur })
+	verif_stub("(*bufio.Scanner).Err", func(sc *bufio.Scanner) error { return nil })
+	tr := NewHTTPTargeter(strings.NewReader(""), nil, nil)
+	done := make(chan struct{})
+	verif_chan_name(done, "done")
+	for w := 0; w < 2; w++ {
+		go func() {
+			var t Target
+			_ = tr(&t)
+			done <- struct{}{}
+		}()
+	}
+	<-done
+	<-done
+}
+
+// C15 (3b) — the same for a target that spans several lines (request line and
+// a header line): two goroutines, race and bound queries. Reading the lines
+// that belong to a target must be ordered by the targeter's mutex just like
+// reading its request line.
+//
+//verif:harness engine=gobmc unwind=32 replay=none queries=cut,race bmctimeout=900 maxevents=200
+func verif_harness_C15_http_targeter_header_race() {
+	lines := []string{"GET http://a/", "X-H: 1"}
+	pos := 0
+	verif_shared(&pos, "scanner_position")
+	cur := ""
+	// Each goroutine is explored on its own, so this plain variable is that
+	// goroutine's private lower bound for the cursor: until the first data race
+	// (which the query reports) the cursor never moves backwards, so assuming it
+	// prunes only continuations after a race.
+	seen := 0
+	verif_stub("(*bufio.Scanner).Scan", func(sc *bufio.Scanner) bool {
+		p := pos
+		verif_assume(p >= seen)
+		seen = p
+		if p < 0 || p >= len(lines) {
+			return false
+		}
+		pos = p + 1
+		seen = p + 1
 		cur = lines[p]
 		return true
 	})
